@@ -706,7 +706,7 @@ def gen_store(pid, tier, seed, scale, rng, hists, stats):
                 hists.append(h)
                 stats["bit sets inside one high top-layer block"] += 1
     if pid == "C08":
-        for sid in range(16):
+        for sid in range(sg.NSIDS):
             for _ in range((12 if q else 150) * scale):
                 hists.append(sg.map_history(rng, rng.randint(10, 60 if q else 200), [sid]) + [(sg.DROPW, [])])
                 stats["per-kind map histories"] += 1
@@ -727,7 +727,7 @@ def gen_store(pid, tier, seed, scale, rng, hists, stats):
                 hists.append(jg.join_history(rng, rng.randint(6, 30), focus))
                 stats["%s-focused join histories" % focus] += 1
     if pid == "C04":
-        for sid in range(16):
+        for sid in range(sg.NSIDS):
             for _ in range((40 if q else 400) * scale):
                 hists.append(sg.map_history(rng, rng.randint(10, 70 if q else 200), [sid]))
                 stats["per-kind map histories"] += 1
@@ -735,13 +735,13 @@ def gen_store(pid, tier, seed, scale, rng, hists, stats):
             hists.append(sg.map_history(rng, rng.randint(10, 80)))
             stats["mixed-kind map histories"] += 1
         if FAR_OK:
-            for sid in (rng.sample(range(16), 1) if q else range(16)):
+            for sid in (rng.sample(range(sg.NSIDS), 1) if q else range(sg.NSIDS)):
                 hists.append(sg.far_history(rng, sid))
                 stats["far-apart indices (>= 64^3)"] += 1
         for _ in range((200 if q else 2000) * scale):
             hists.append(sg.random_store_history(rng, rng.randint(10, 60)))
             stats["random storage histories"] += 1
-        for sid in (rng.sample(range(16), 10) if q else list(range(16)) * 4):
+        for sid in (rng.sample(range(sg.NSIDS), 10) if q else list(range(sg.NSIDS)) * 4):
             hists.append(sg.mid_history(rng, [sid]))
             stats["indices around 4096"] += 1
         for _ in range((120 if q else 1200) * scale):
